@@ -120,6 +120,37 @@ def shapes_for(k):
 def run_shard(ctx):
     from emd import spectra as SP
     rng = ctx.rng
+    # random part
+    n = NRANDOM[ctx.tier] // ctx.nshards
+    for i in range(n):
+        if ctx.out_of_time():
+            break
+        T, M = int(rng.integers(1, 51)), int(rng.integers(1, 5))
+        nb = int(rng.integers(1, 25))
+        scale = gens.pick(rng, ['linear', 'log'])
+        lo = float(rng.uniform(.5, 5))
+        hi = lo + float(rng.uniform(1, 40))
+        edges, centres = SP.define_hist_bins(lo, hi, nb, scale=scale)
+        check_bins(ctx, edges, centres, lo, hi, nb, scale)
+        infr = rng.uniform(lo - .3 * (hi - lo), hi + .3 * (hi - lo), (T, M))
+        mask = rng.random((T, M))
+        infr[mask < .1] = rng.choice(edges, int((mask < .1).sum()))
+        infr[(mask >= .1) & (mask < .15)] *= -1
+        inam = rng.uniform(.1, 3, (T, M))
+        if rng.random() < .3:
+            inam[rng.integers(0, T), :] = 0.0
+        mode = gens.pick(rng, ['energy', 'amplitude'])
+        case = {'kind': 'hht', 'infr': infr, 'inam': inam, 'edges': edges, 'mode': mode}
+        try:
+            compare(ctx, infr.copy(), inam.copy(), edges, mode, case, 'random')
+        except Exception as e:
+            ctx.violation('exception:%s' % type(e).__name__, 'spectrum routine raised %s: %s' % (type(e).__name__, str(e)[:120]), case)
+        if i % 10 == 0:
+            X = rng.uniform(.5, 50, int(rng.integers(4, 400)))
+            nbd = gens.pick(rng, [None, 1, 3, 10])
+            e2, c2 = SP.define_hist_bins_from_data(X, nbins=nbd, scale=scale)
+            check_bins(ctx, e2, c2, X.min(), X.max(), nbd if nbd is not None else int(np.sqrt(len(X))), scale, tag='from_data')
+
     idx = 0
     for scale in ('linear', 'log'):
         for nb in range(1, 5):
@@ -144,35 +175,6 @@ def run_shard(ctx):
                     if idx < 30 and ctx.shard == 0:
                         ctx.sample({'edges': np.round(edges, 4), 'freqs': fr, 'shapes': shapes_for(k)})
     ctx.count('exhaustive_done')
-    # random part
-    n = NRANDOM[ctx.tier] // ctx.nshards
-    for i in range(n):
-        if ctx.out_of_time():
-            break
-        T, M = int(rng.integers(1, 51)), int(rng.integers(1, 5))
-        nb = int(rng.integers(1, 25))
-        scale = gens.pick(rng, ['linear', 'log'])
-        lo = float(rng.uniform(.5, 5))
-        hi = lo + float(rng.uniform(1, 40))
-        edges, centres = SP.define_hist_bins(lo, hi, nb, scale=scale)
-        check_bins(ctx, edges, centres, lo, hi, nb, scale)
-        infr = rng.uniform(lo - .3 * (hi - lo), hi + .3 * (hi - lo), (T, M))
-        mask = rng.random((T, M))
-        infr[mask < .1] = rng.choice(edges, int((mask < .1).sum()))
-        infr[(mask >= .1) & (mask < .15)] *= -1
-        inam = rng.uniform(.1, 3, (T, M))
-        mode = gens.pick(rng, ['energy', 'amplitude'])
-        case = {'kind': 'hht', 'infr': infr, 'inam': inam, 'edges': edges, 'mode': mode}
-        try:
-            compare(ctx, infr.copy(), inam.copy(), edges, mode, case, 'random')
-        except Exception as e:
-            ctx.violation('exception:%s' % type(e).__name__, 'spectrum routine raised %s: %s' % (type(e).__name__, str(e)[:120]), case)
-        if i % 10 == 0:
-            X = rng.uniform(.5, 50, int(rng.integers(4, 400)))
-            nbd = gens.pick(rng, [None, 1, 3, 10])
-            e2, c2 = SP.define_hist_bins_from_data(X, nbins=nbd, scale=scale)
-            check_bins(ctx, e2, c2, X.min(), X.max(), nbd if nbd is not None else int(np.sqrt(len(X))), scale, tag='from_data')
-
 
 def check_bins(ctx, edges, centres, lo, hi, nb, scale, tag='define'):
     case = {'kind': 'bins', 'lo': lo, 'hi': hi, 'nbins': nb, 'scale': scale}
